@@ -95,6 +95,7 @@ package json
 
 //@ func json.(*parserState).consumeValue
 //@   requires ibOK(p, b)
+//@   requires [C04_reset] lvl == 0 ==> p.ib == 0 && len(p.currPath) == 0 && p.firstToken == TokInvalid && !p.querySatisfied
 //@   requires [C16_cap] capOK(p)
 //@   requires [C16_lvl] 0 <= lvl && lvl <= p.maxRecursion + 8
 //@   assigns p.ib, p.currPath, p.firstToken, p.querySatisfied
@@ -108,6 +109,7 @@ package json
 
 //@ func json.(*parserState).consumeAny
 //@   requires ibOK(p, b)
+//@   requires [C04_reset] lvl == 0 ==> p.ib == 0 && len(p.currPath) == 0 && p.firstToken == TokInvalid && !p.querySatisfied
 //@   requires [C16_cap] capOK(p)
 //@   requires [C16_lvl] 0 <= lvl && lvl <= p.maxRecursion + 8
 //@   assigns p.ib, p.currPath, p.firstToken, p.querySatisfied
